@@ -149,7 +149,7 @@ impl Mac {
             Mac::Setter => vec![BL::Text(".define PROBE_FLAG"), BL::Text("ldi r29, 7")],
             Mac::Optional => vec![BL::Text(".if @0 > 5"), BL::Text("ldi r29, low(@1) ; uses @1"), BL::Text(".endif"), BL::Text("ldi r30, low(@0) // not @1")],
             Mac::FlagArg => vec![BL::Text(".ifdef @0"), BL::Text("ldi r28, 5"), BL::Text(".else"), BL::Text("ldi r28, 6"), BL::Text(".endif")],
-            Mac::SemiLit => vec![BL::Text(".db ';', low(@1)"), BL::Text(".db \"k;\", low(@0)"), BL::Text("cpi r16, ';' ; a comment with @1")],
+            Mac::SemiLit => vec![BL::Text(".db ';', low(@1)"), BL::Text(".db \"k;\", low(@0)"), BL::Text("cpi r16, ';' ; a comment with @1"), BL::Text(".db \"\u{b0}C \u{e9}\", low(@0), \"\u{20ac}\", low(@1)")],
             Mac::TailCseg => vec![BL::Text(".eseg"), BL::Text(".db @0"), BL::Text(".cseg")],
             Mac::TailOrg => vec![BL::Text("ldi r24, 3"), BL::Text(".org @0")],
             Mac::Org => vec![BL::Text("ldi r24, 1"), BL::Text(".org @0"), BL::Text("ldi r24, low(@0)")],
@@ -174,8 +174,10 @@ fn substitute(template: &str, args: &[Arg], value_semantics: bool) -> Option<Str
             }
             i += 2;
         } else {
-            out.push(b[i] as char);
-            i += 1;
+            // (copy the whole character: the template may hold text beyond ASCII)
+            let ch = template[i..].chars().next().unwrap();
+            out.push(ch);
+            i += ch.len_utf8();
         }
     }
     Some(out)
@@ -459,7 +461,7 @@ impl MacModel {
                     ok = false;
                 }
                 Act::Plain => {
-                    let l = format!("ldi r22, {}", i + 1);
+                    let l = format!("ldi r22, {}", (i + 1) % 251);
                     program.push_str(&l);
                     program.push('\n');
                     exp_lines.push(l);
